@@ -110,13 +110,28 @@ theorem getHandler_coherent (r : Reg) (ct : ClassTable) (cls : String)
       have hne : hn' ≠ .off := fun h => nearest_ne_off r.tbl ct cls (h ▸ hn)
       exact ⟨rfl, rfl, coherent_cons hne hn hc⟩
 
+theorem probe_coherent (r : Reg) (ct : ClassTable) (cls : String) (hc : r.coherent ct = true) :
+    (r.probe ct cls).tbl = r.tbl ∧ (r.probe ct cls).coherent ct = true := by
+  unfold Reg.probe
+  cases hl : alookup r.cache cls with
+  | some hn => exact ⟨rfl, hc⟩
+  | none =>
+    cases hn : r.tbl.nearest ct cls with
+    | some hn' =>
+      have hne : hn' ≠ .off := fun h => nearest_ne_off r.tbl ct cls (h ▸ hn)
+      exact ⟨rfl, coherent_cons hne hn hc⟩
+    | none =>
+      refine ⟨rfl, ?_⟩
+      simp only [Reg.coherent, List.all_cons, Bool.and_eq_true] at hc ⊢
+      exact ⟨by simp [hn], hc⟩
+
 theorem register_coherent (r : Reg) (ct : ClassTable) (c : String) (hn : Option Handler) (ex : Bool) :
     (r.register c hn ex).coherent ct = true := by
   simp [Reg.register, Reg.coherent]
 
 /-- the registry after one step of the loop -/
 def stepReg (env : Env) (h : Heap) (op : String) (cur : Val) (r : Reg) : Reg :=
-  if op == "P" then (r.getHandler env.k.ct (cur.clsName h)).2 else r
+  if op == "P" && modelled h cur then (r.getHandler env.k.ct (cur.clsName h)).2 else r
 
 theorem stepReg_coherent (env : Env) (h : Heap) (op : String) (cur : Val) (r : Reg)
     (hc : r.coherent env.k.ct = true) :
